@@ -191,6 +191,37 @@ def run(ctx):
     if not found:
         ctx.ob(R7, f"{CG}::create_nxgraph::add-untouched-buses", "set(net.bus.index) - set(mg.nodes())" in ast.unparse(fg.node),
                "buses without any edge are added as isolated nodes", fg.loc())
+    # out-of-service buses are removed by LABEL; searches forward their switch / bus options to the graph they build
+    rem = [c for c in ast.walk(fg.node) if isinstance(c, ast.Call) and isinstance(c.func, ast.Attribute) and c.func.attr in ("remove_node", "remove_nodes_from")
+           and not any("nogobuses" in ast.unparse(a_) for a_ in c.args)]
+    srcs = []
+    for c in rem:
+        par = next((n for n in ast.walk(fg.node) if isinstance(n, ast.For) and any(c is y for y in ast.walk(n))), None)
+        srcs.append(ast.unparse(par.iter) if par is not None else ast.unparse(c.args[0]))
+    src = next((x for x in srcs if "in_service" in x), "")
+    ok = "net.bus.index[" in src.replace(" ", "") and "flatnonzero" not in src and "arange" not in src
+    ctx.ob(R7, f"{CG}::create_nxgraph::remove-oos-buses-by-label", ok, f"out-of-service buses removed from `{src[:70]}`" if ok else
+           f"out-of-service buses are removed by `{src[:80]}` (positions, not index labels): for a bus index other than 0..n-1 a dead bus stays and a "
+           "live bus is removed", fg.loc())
+    GS_ = "pandapower.topology.graph_searches"
+    sig = {a_.arg for a_ in fg.node.args.args} | {a_.arg for a_ in fg.node.args.kwonlyargs}
+    nfw = 0
+    for fsi in ctx.repo.module(GS_).functions.values():
+        own = {a_.arg for a_ in fsi.node.args.args} | {a_.arg for a_ in fsi.node.args.kwonlyargs}
+        shared = (own & sig) - {"net"}
+        if not shared:
+            continue
+        for c in ast.walk(fsi.node):
+            if isinstance(c, ast.Call) and (dotted(c.func) or "").endswith("create_nxgraph"):
+                nfw += 1
+                kw = {k.arg for k in c.keywords if k.arg}
+                missing = sorted(p for p in shared if p not in kw)
+                ctx.ob(R7, f"{GS_}::{fsi.qualname}::forwards-options", not missing,
+                       f"forwards {sorted(shared)} to create_nxgraph" if not missing else
+                       f"{fsi.qualname} has the option(s) {missing} but does not hand them to create_nxgraph: the graph is built with the defaults, the "
+                       "caller's choice is ignored", fsi.loc(c))
+    if nfw < 2:
+        ctx.fail(f"NODE-SET: only {nfw} graph-building searches with shared options found (confirmed: calc_distance_to_bus, unsupplied_buses, ...)")
     # trafo3w: open switches are matched as (index, bus) pairs
     pair = [n for n in ast.walk(fg.node) if isinstance(n, ast.Assign) and ast.unparse(n.targets[0]) == "open_switch" and "INDEX" in ast.unparse(n.value)]
     k = 0
@@ -213,6 +244,8 @@ def variants(repo):
     g = "pandapower/topology/graph_searches.py"
     V = Variant
     return [
+        V("out-of-service buses removed by position", p, lambda s: s.replace("        for b in net.bus.index[~net.bus.in_service.values]:\n            if b in mg:\n                mg.remove_node(b)\n", "        mg.remove_nodes_from(np.flatnonzero(~net.bus.in_service.values))\n", 1), "remove-oos-buses-by-label"),
+        V("distance search ignores respect_switches", g, replace_once("g = create_nxgraph(net, respect_switches=respect_switches, nogobuses=nogobuses,\n                           notravbuses=notravbuses)", "g = create_nxgraph(net, nogobuses=nogobuses, notravbuses=notravbuses)"), "forwards-options"),
         V("untouched buses counted against in-service buses", p, replace_once("if len(mg.nodes()) < len(net.bus.index):", "if len(mg.nodes()) < np.count_nonzero(net.bus.in_service.values):"), "NODE-SET"),
         V("trafo3w open switch matched by index and bus separately", p, replace_once("open_switch = np.isin(indices[:, INDEX] + indices[:, BUS] * 1j,\n                                          open_trafo3w)", "open_switch = np.isin(indices[:, INDEX], open_trafo3w_index) & np.isin(indices[:, BUS], open_trafo3w_buses)"), "NODE-SET"),
         V("trafo block uses line code", p, in_function("create_nxgraph", replace_once('mask = (net.switch.et.values == "t") & open_sw', 'mask = (net.switch.et.values == "l") & open_sw')), "SWITCH-CODE"),
